@@ -278,3 +278,52 @@ def r_bounds(A, ctx, scope, rule="R-BOUNDS"):
                             f"{B[0].split(':')[1]} and the subscript adds {c}): Numba reads memory "
                             "outside the array", loc=loc(f, sub))
     ctx.floor(rule, n, scope.get("floor", 20))
+
+
+def _dom_class(d):
+    if d is None:
+        return None
+    if d.startswith(("S:", "SEG:")):
+        return "position"
+    return d
+
+
+def r_argkind(A, ctx, scope, rule="R-ARGKIND"):
+    ctx.rule(rule, "argument extents across calls: when a kernel indexes one of its array parameters "
+             "by coordinates (features / groups / samples / tasks) no call site hands over an array "
+             "restricted to the working set - beliefs of the callee about its parameter against "
+             "the type of the argument expression in the caller")
+    kinds = all_kinds(A)
+    flow = A.flow
+    n = 0
+    for f, fk in kinds.items():
+        for call, callees, kind in flow.calls.get(f, ()):
+            if kind != "direct":
+                continue
+            for callee in callees:
+                gk = kinds.get(callee)
+                if gk is None:
+                    continue
+                bnd, _ = flow.bind(f, call, callee)
+                for prm, a in bnd.items():
+                    pd = _dom_class(gk.dom_of_axis(prm, 0))
+                    if pd is None:
+                        continue
+                    t = fk.type_of(a)
+                    if not t or not t[0] or t[0][0] is None:
+                        continue
+                    ad = _dom_class(t[0][0])
+                    if pd == "position" or gk.elem.get(prm):
+                        # a kernel that walks positions may be handed a full array together
+                        # with the full working set (position == coordinate); index arrays have
+                        # their own position space
+                        continue
+                    n += 1
+                    ctx.ob(rule, f"{f.fq}::{callee.name}({prm}={norm_src(a)[:40]})", ad != "position",
+                           what=f"{f.qualname} passes `{norm_src(a)[:50]}` (axis 0 ranges over "
+                                f"{'working-set positions' if ad == 'position' else ad}) as `{prm}` of "
+                                f"{callee.name}, which indexes it by "
+                                f"{'working-set positions' if pd == 'position' else pd}: out-of-range / "
+                                "neighbouring entries are read without any error (no bounds checking in "
+                                "compiled code)", loc=loc(f, call))
+    ctx.floor(rule, n, scope.get("floor", 20))
